@@ -443,6 +443,9 @@ pub struct Timeline {
 	pub adds: Vec<HtlcMsg>,
 	pub fails: Vec<HtlcMsg>,
 	pub fulfills: Vec<HtlcMsg>,
+	/// update_fulfill_htlc / update_fail_htlc actually handed to the receiving node: (is_fulfill, message); `h_from` is
+	/// the *receiver's* height at delivery
+	pub delivered: Vec<(bool, HtlcMsg)>,
 	/// (step, node, node height, event)
 	pub events: Vec<(u64, usize, u32, Event)>,
 	/// (step, node, node height, previous node height, chain height, tx): node height = after the block
@@ -497,6 +500,17 @@ impl Timeline {
 						_ => {},
 					}
 				},
+				SEvent::Deliver { from, to, wire } => {
+					let (is_fulfill, chan_id, htlc_id) = match wire {
+						Wire::Fulfill(m) => (true, m.channel_id, m.htlc_id),
+						Wire::Fail(m) => (false, m.channel_id, m.htlc_id),
+						Wire::FailMalformed(m) => (false, m.channel_id, m.htlc_id),
+						_ => continue,
+					};
+					if let Some(c) = chan_of(&chan_id) {
+						t.delivered.push((is_fulfill, HtlcMsg { step: *step, from: *from, to: *to, chan: c, htlc_id, hash: ids.get(&(c, *to, htlc_id)).cloned(), cltv: 0, amt_msat: 0, h_from: heights[*to] }));
+					}
+				},
 				SEvent::Ldk { node, ev } => t.events.push((*step, *node, heights[*node], ev.clone())),
 				SEvent::Broadcast { node, tx, height, .. } => t.broadcasts.push((*step, *node, heights[*node], prev_heights[*node], *height, tx.clone())),
 				_ => {},
@@ -522,11 +536,40 @@ impl Timeline {
 	}
 	/// ChannelClosed events seen by `node` for channel index `chan`
 	pub fn closed(&self, sim: &Sim, node: usize, chan: usize) -> Option<(u32, String)> {
+		self.closed_step(sim, node, chan).map(|(_, h, r)| (h, r))
+	}
+	/// (step, node height, reason) of the ChannelClosed event
+	pub fn closed_step(&self, sim: &Sim, node: usize, chan: usize) -> Option<(u64, u32, String)> {
 		let id = sim.chans[chan].id;
-		self.events.iter().find_map(|(_, n, h, ev)| match ev {
-			Event::ChannelClosed { channel_id, reason, .. } if *n == node && *channel_id == id => Some((*h, format!("{:?}", reason))),
+		self.events.iter().find_map(|(s, n, h, ev)| match ev {
+			Event::ChannelClosed { channel_id, reason, .. } if *n == node && *channel_id == id => Some((*s, *h, format!("{:?}", reason))),
 			_ => None,
 		})
+	}
+	/// Earliest recorded sign that `node` considers channel `chan` closed: the error it sends to the peer, its
+	/// first broadcast spending the funding output, or its ChannelClosed event.
+	pub fn closure_step(&self, sim: &Sim, node: usize, chan: usize) -> Option<u64> {
+		let peer = sim.peer_of(chan, node);
+		let fo = sim.funding_outpoint(chan);
+		let id = sim.chans[chan].id;
+		let mut best: Option<u64> = self.closed_step(sim, node, chan).map(|x| x.0);
+		for (step, e) in sim.log.iter() {
+			let hit = match e {
+				SEvent::ErrorAction { from, to, is_error_msg, .. } => *from == node && *to == peer && *is_error_msg,
+				SEvent::Emit { from, wire: Wire::Error(m), .. } => *from == node && m.channel_id == id,
+				SEvent::Broadcast { node: n, tx, .. } => *n == node && tx.input.iter().any(|i| i.previous_output == fo),
+				_ => false,
+			};
+			if hit {
+				best = Some(best.map(|b| b.min(*step)).unwrap_or(*step));
+				break;
+			}
+		}
+		best
+	}
+	/// Was an update_fulfill_htlc (true) / update_fail_htlc (false) for `hash` handed to `to` by `from` at a step before `before`?
+	pub fn delivered_before(&self, is_fulfill: bool, from: usize, to: usize, hash: &PaymentHash, before: Option<u64>) -> Option<&HtlcMsg> {
+		self.delivered.iter().find(|(f, m)| *f == is_fulfill && m.from == from && m.to == to && m.hash == Some(*hash) && before.map(|b| m.step < b).unwrap_or(true)).map(|x| &x.1)
 	}
 	pub fn add_of(&self, from: usize, to: usize, hash: &PaymentHash) -> Option<&HtlcMsg> {
 		self.adds.iter().find(|m| m.from == from && m.to == to && m.hash == Some(*hash))
